@@ -233,6 +233,9 @@ func (w *Proxy) checkC02() {
 				s.Violate("C02", "cross_talk", "req#%d (client %s id %d) received the reply produced for req#%d", r.Idx, r.Client, r.ID, oi)
 				continue
 			}
+			if r.Method == "HEAD" && len(rep.Body) == 0 {
+				continue // the answer to a HEAD request has no body
+			}
 			if !bytes.HasPrefix(rep.Body, []byte(r.Token)) {
 				s.Violate("C02", "mixed_message", "req#%d: reply header carries its token but the body does not (header and body from different exchanges)", r.Idx)
 			}
@@ -285,6 +288,18 @@ func (w *Proxy) checkC03() {
 	for _, r := range w.H.Reqs {
 		if r.ConnID == 0 || r.SentAt == 0 {
 			continue // never sent (connect refused / client had left)
+		}
+		if le := r.Extra["local_err"]; le != "" {
+			// no route / a cluster without hosts: MOSN answers itself, nothing is forwarded
+			w.Stats["local_error_requests"]++
+			if len(r.Upstream) > 0 {
+				s.Violate("C03", "unroutable_request_forwarded", "req#%d asked for service %q (%s) and reached upstream %s", r.Idx, le, map[string]string{"none": "no route matches", "empty": "its cluster has no host"}[le], r.Upstream[0].Host)
+			}
+			for _, rep := range r.Replies {
+				if rep.Success {
+					s.Violate("C03", "unroutable_request_answered_with_success", "req#%d asked for service %q and got a success reply", r.Idx, le)
+				}
+			}
 		}
 		if len(w.P.Filters) > 0 {
 			if want, got, end, _ := w.filterOutcome(r); end == "terminated" && len(got) == len(want) {
